@@ -728,5 +728,143 @@ func ruleDepth(c *Ctx) {
 		}
 		c.check(okFresh, "frame-fresh", in.Pos(), "the array mapping pushed for a call starts from nil/make: it is this call's own storage",
 			"the array mapping pushed on localArrays for a call is built on "+strings.Join(bases, ", ")+", not on storage of its own: a nested or recursive call reuses the same backing array and overwrites the caller's mapping, so after the callee returns the caller's array parameters name the callee's arrays")
+		// (the arrays themselves are decided once per run of the rule: localArraysFresh)
+		ranFresh := false
+		for _, o := range c.obs {
+			if strings.HasPrefix(o.Key, "local-array-fresh") || o.Key == "census:stores into the table of live arrays" {
+				ranFresh = true
+			}
+		}
+		if !ranFresh {
+			localArraysFresh(c)
+		}
 	})
+}
+
+// localArraysFresh: every store into the interpreter's table of live arrays is a truncation of the table, or the
+// table extended by freshly made maps (directly, or by a helper all of whose returns do that).
+func localArraysFresh(c *Ctx) {
+	// whatever is added to the table of live arrays for a call's local arrays is a newly made map - never one left
+	// behind by an earlier call (which a non-local exit from that call, such as exit or an error, would not have emptied)
+	isTable := func(v ssa.Value) bool { return interpFieldLoad(v) == "arrays" }
+	var fresh func(v ssa.Value, base func(ssa.Value) bool, depth int) bool
+	fresh = func(v ssa.Value, base func(ssa.Value) bool, depth int) bool {
+		if depth > 5 {
+			return false
+		}
+		switch x := v.(type) {
+		case *ssa.Phi:
+			for _, e := range x.Edges {
+				if e == v {
+					continue
+				}
+				if !fresh(e, base, depth+1) {
+					return false
+				}
+			}
+			return true
+		case *ssa.Slice:
+			// a truncation: the new length is a length taken earlier (len(...), possibly minus a constant) or 0;
+			// slicing upwards (n+1) would reach into the spare capacity, where old elements live
+			var lenOK func(h ssa.Value, d int) bool
+			lenOK = func(h ssa.Value, d int) bool {
+				if h == nil || d > 4 {
+					return h == nil && false
+				}
+				switch y := h.(type) {
+				case *ssa.Const:
+					return y.Value != nil && y.Value.ExactString() == "0"
+				case *ssa.Call:
+					b, ok := y.Call.Value.(*ssa.Builtin)
+					return ok && b.Name() == "len"
+				case *ssa.BinOp:
+					if y.Op == token.SUB {
+						_, isK := y.Y.(*ssa.Const)
+						return isK && lenOK(y.X, d+1)
+					}
+				case *ssa.Phi:
+					for _, e := range y.Edges {
+						if !lenOK(e, d+1) {
+							return false
+						}
+					}
+					return true
+				}
+				return false
+			}
+			if x.Low != nil || !lenOK(x.High, 0) {
+				return false
+			}
+			return base(x.X) || fresh(x.X, base, depth+1)
+		case *ssa.MakeSlice:
+			return true
+		case *ssa.Call:
+			if b, ok := x.Call.Value.(*ssa.Builtin); ok && b.Name() == "append" && len(x.Call.Args) == 2 {
+				if !(base(x.Call.Args[0]) || fresh(x.Call.Args[0], base, depth+1)) {
+					return false
+				}
+				// the appended elements: a varargs array whose stores are all MakeMap
+				sl, ok := x.Call.Args[1].(*ssa.Slice)
+				if !ok {
+					return false
+				}
+				al, ok := sl.X.(*ssa.Alloc)
+				if !ok {
+					return false
+				}
+				okElems := false
+				for _, r := range *al.Referrers() {
+					if ia, ok := r.(*ssa.IndexAddr); ok {
+						for _, r2 := range *ia.Referrers() {
+							if st, ok := r2.(*ssa.Store); ok {
+								if _, isMake := st.Val.(*ssa.MakeMap); isMake {
+									okElems = true
+								} else {
+									return false
+								}
+							}
+						}
+					}
+				}
+				return okElems
+			}
+			if cal := x.Call.StaticCallee(); cal != nil && len(cal.Blocks) > 0 && depth < 2 {
+				// a helper: every return extends one of its parameters by fresh maps
+				isParam := func(p ssa.Value) bool {
+					_, ok := p.(*ssa.Parameter)
+					return ok
+				}
+				n := 0
+				for _, b := range cal.Blocks {
+					if len(b.Instrs) == 0 {
+						continue
+					}
+					if ret, ok := b.Instrs[len(b.Instrs)-1].(*ssa.Return); ok && len(ret.Results) == 1 {
+						n++
+						if !fresh(ret.Results[0], isParam, depth+2) {
+							return false
+						}
+					}
+				}
+				return n > 0
+			}
+		}
+		return base(v)
+	}
+	n := 0
+	for _, fn := range c.srcFuncs("interp") {
+		fn := fn
+		if fn.Name() == "newInterp" {
+			continue
+		}
+		allInstrs(fn, func(in ssa.Instruction) {
+			name, val := interpFieldStore(in)
+			if name != "arrays" {
+				return
+			}
+			n++
+			c.check(fresh(val, isTable, 0), "local-array-fresh:"+fnKey(fn), posOr(in.Pos(), fn.Pos()), "the table of live arrays is only truncated or extended by newly made maps", fnKey(fn)+" puts into the table of live arrays something other than the table itself truncated or extended by freshly made maps (for example a map left over from an earlier call): when that call was left by exit or an error, its contents are still there and show up in the next call's local array")
+		})
+	}
+	c.atLeast("stores into the table of live arrays", n, 2)
 }
